@@ -26,16 +26,16 @@ import (
 // Input (JSON; also the corpus / replay format).
 
 type Input struct {
-	Path     string      `json:"path"`
-	Propose  *ProposeIn  `json:"propose,omitempty"`
-	Relays   []RelayIn   `json:"relays,omitempty"`
-	Graffiti *GraffitiIn `json:"graffiti,omitempty"`
+	Path     string       `json:"path"`
+	Propose  *ProposeIn   `json:"propose,omitempty"`
+	Relays   []RelayIn    `json:"relays,omitempty"`
+	Graffiti *GraffitiIn  `json:"graffiti,omitempty"`
 	Config   []ConfigStep `json:"config,omitempty"`
-	Duties   *DutiesIn   `json:"duties,omitempty"`
-	Head     *HeadIn     `json:"head,omitempty"`
-	ErrBody  *ErrBodyIn  `json:"errbody,omitempty"`
-	Dynamic  *DynamicIn  `json:"dynamic,omitempty"`
-	Tags     []string    `json:"tags,omitempty"`
+	Duties   *DutiesIn    `json:"duties,omitempty"`
+	Head     *HeadIn      `json:"head,omitempty"`
+	ErrBody  *ErrBodyIn   `json:"errbody,omitempty"`
+	Dynamic  *DynamicIn   `json:"dynamic,omitempty"`
+	Tags     []string     `json:"tags,omitempty"`
 }
 
 // Observed is the JSON rendering of what the implementation did (for samples and replays).
